@@ -25,6 +25,9 @@ The Model lays the forest out at synthetic offsets (unit header 11 bytes, root D
 other DIE 8 bytes): only the order of offsets, the unit bounds and "is this the start of a DIE"
 matter to the code under test.
 
+`flt-split …` (same arguments, `nunits` = 1): the forest is the split unit of a skeleton unit and is
+filtered with `FilterUnitSection::new_split` and converted with `convert_split_with_filter`.
+
 Reply: `ok <unit>/<unit>/…` with `<unit>` = `,`-separated `id^parent` (parent id or `R`) of the
 entries present in the converted unit (`-` if none), or `err C.<ConvertError>`.
 -/
@@ -196,6 +199,15 @@ def handle (op : String) (args : List String) : Option String :=
     let req ← parseIds required
     let f ← build nunits res req
     pure (render f (run m f.units))
+  | "flt-split", [mode, ver, fmt, asz, nunits, entries, required] => do
+    let m ← mode? mode
+    let _ ← ver.toNat?; let _ ← format? fmt; let _ ← asz.toNat?
+    let nunits ← nunits.toNat?
+    if nunits != 1 then none
+    let res ← (if entries == "-" then some [] else (entries.splitOn ";").mapM parseREntry)
+    let req ← parseIds required
+    let f ← build nunits res req
+    pure (render f (runSplit m f.units))
   | _, _ => none
 
 end Gimli.Drv.C19
